@@ -4085,7 +4085,12 @@ func (p *Posix) CopyObject(ctx context.Context, input s3response.CopyObjectInput
 					return nil, fmt.Errorf("read err: %w", err)
 				}
 
-				checksums = s3response.Checksum{}
+				// If a new checksum is calculated, the checksum type
+				// should be FULL_OBJECT
+				checksums = s3response.Checksum{
+					Algorithm: input.ChecksumAlgorithm,
+					Type:      types.ChecksumTypeFullObject,
+				}
 
 				sum := hashReader.Sum()
 				switch hashReader.Type() {
